@@ -17,6 +17,8 @@ for e in LEAVES:
     if e["name"] in ("esds", "mp4a_esds"):
         continue
     tier = "q" if (last_quick.get(e["ty"]) == e["name"] and e["ty"] in QUICK_DEC_TYPES) else "t"
+    if e["tier"] == "q" and e["ty"] in ("EmsgBox",):
+        tier = "q"  # both emsg versions have their own field order: decode each quick shape
     body += harness(tier, "h05dec", e["name"], e["unwind"],
                     "crate::c05_decode_ref!(%s, %s, %s, %d);" % (e["ty"], e["any"], e["ref"], nb(e)))
 write_gen("c05.rs", "c05.py", body)
